@@ -389,7 +389,7 @@ def run_property(pid, tier, seed, replay=None):
     t0 = time.time()
     ctx = Ctx(pid, tier)
     # runs against a scratch copy (self-validation with VERIF_REPO) never touch the registered evidence
-    evid_path = os.path.join(ROOT, 'evidence', pid + '.json') if REPO == '/repo' else os.path.join(BUILD, 'evidence-alt', pid + '.json')
+    evid_path = os.path.join(ROOT, 'evidence', pid + '.json') if (REPO == '/repo' and not os.environ.get('VERIF_SWEEP')) else os.path.join(BUILD, 'evidence-alt', pid + '.json')
     os.makedirs(os.path.dirname(evid_path), exist_ok=True)
     violations = []   # dict(sig, desc, case, n, extra)
     inconclusive = []
@@ -497,7 +497,7 @@ def run_property(pid, tier, seed, replay=None):
             d[v['sig']] = dict(v, known=k)
     rc = 0
     lines = []
-    rdir = os.path.join(ROOT, 'replays', pid) if REPO == '/repo' else os.path.join(BUILD, 'replays-alt', pid)
+    rdir = os.path.join(ROOT, 'replays', pid) if (REPO == '/repo' and not os.environ.get('VERIF_SWEEP')) else os.path.join(BUILD, 'replays-alt', pid)
     for sig, v in sorted(old.items()):
         lines.append('KNOWN-FINDING: property=%s %s [%s; seen %d time(s) in this run]' % (pid, v['known'].get('what', sig), sig, v['n']))
     for i, (sig, v) in enumerate(sorted(new.items())):
